@@ -16,9 +16,12 @@
 (* still examined.  The final step prints <<"DONE", #facts, #rejected>>;   *)
 (* the orchestrator treats a missing or short DONE as a harness error.     *)
 (***************************************************************************)
-EXTENDS IntLane, FP, FEnv, TLC, Json, IOUtils
+EXTENDS IntLane, FP, FEnv, Mask, Mem, TLC, Json, IOUtils
 
 Tr == ndJsonDeserialize(IOEnv.TRACE)
+
+\* memory events are judged for their values (C08) or their footprint (C09)
+MemMode == IF "MEMMODE" \in DOMAIN IOEnv THEN IOEnv.MEMMODE ELSE "values"
 
 VARIABLES l,      \* next line of the trace
           nrej    \* facts rejected so far
@@ -27,6 +30,8 @@ vars == <<l, nrej>>
 FactOK(e) ==
   CASE e.o = "env" -> EnvFactOK(e)
     [] e.k = "f"   -> FPFactOK(e)
+    [] e.k = "m"   -> MaskFactOK(e)
+    [] e.k = "v"   -> MemFactOK(e, MemMode)
     [] OTHER       -> IntFactOK(e)
 
 Init == l = 1 /\ nrej = 0
